@@ -16,6 +16,7 @@ type State struct {
 	locals map[*ssa.Alloc]T
 	heaps  map[string]T // heap name -> current term
 	epoch  int          // heaps not in the map are name!e<epoch>
+	mepoch int          // map heaps not in the map are name!e<epoch>m<mepoch>
 	ghost  map[string]T // ghost scalars: alloc watermark, held locks, ...
 	defers []deferred
 	dead   bool
@@ -26,7 +27,7 @@ type deferred struct {
 }
 
 func (s *State) clone() *State {
-	n := &State{guard: s.guard, epoch: s.epoch, dead: s.dead}
+	n := &State{guard: s.guard, epoch: s.epoch, mepoch: s.mepoch, dead: s.dead}
 	n.locals = make(map[*ssa.Alloc]T, len(s.locals))
 	for k, v := range s.locals {
 		n.locals[k] = v
@@ -61,7 +62,11 @@ func (ex *Exec) heapGet(st *State, name string, sort Sort) T {
 	if ex.P.immutHeaps[name] {
 		ep = 0 // immutable fields: one symbol for the whole function (writes to fresh objects go through heapSet)
 	}
-	c := ex.vc.constant(fmt.Sprintf("%s!e%d", sanitize(name), ep), sort)
+	sym := fmt.Sprintf("%s!e%d", sanitize(name), ep)
+	if st.mepoch > 0 && (strings.HasPrefix(name, "MapDom_") || strings.HasPrefix(name, "MapVal_")) {
+		sym = fmt.Sprintf("%s!e%dm%d", sanitize(name), ep, st.mepoch)
+	}
+	c := ex.vc.constant(sym, sort)
 	return c
 }
 
@@ -133,12 +138,13 @@ func (ex *Exec) merge(states []*State, edges []T) *State {
 	// epoch
 	same := true
 	for _, s := range states[1:] {
-		if s.epoch != states[0].epoch {
+		if s.epoch != states[0].epoch || s.mepoch != states[0].mepoch {
 			same = false
 		}
 	}
 	if same {
 		out.epoch = states[0].epoch
+		out.mepoch = states[0].mepoch
 	} else {
 		ex.nepoch++
 		out.epoch = ex.nepoch
